@@ -73,6 +73,24 @@ Redirects ==
   \cup {v \o "  1  127.0.0.1:1" : v \in {"MOVED", "ASK"}}          \* double spaces
   \cup {v \o "\t1\t127.0.0.1:1" : v \in {"MOVED", "ASK"}}
 
+(* ---- error replies whose first word is ALMOST a redirection verb.  The proxy recognises MOVED / ASK / CLUSTERDOWN   *)
+(* by comparing the first word case-insensitively; a comparison that folds case the Unicode way also accepts the words  *)
+(* that equal the verb only under Unicode simple case folding: s ~ U+017F (LATIN SMALL LETTER LONG S), k ~ U+212A        *)
+(* (KELVIN SIGN) - the only ASCII letters with a non-ASCII fold partner, so the class is {A?K, CLU?TERDOWN}; MOVED has   *)
+(* none.  {017f} {212a} stand for the UTF-8 encoding of those runes (replaced by the replayer).  Also: mixed ASCII case   *)
+(* (legitimate), and first words that merely START with a verb.  Shapes: 3 words (passes every length check, address of  *)
+(* a live node), 4 words, 2 words.                                                                                      *)
+LongS == "{017f}"
+Kelvin == "{212a}"
+FoldWords == {"A" \o LongS \o "K", "a" \o LongS \o "k", "AS" \o Kelvin, "as" \o Kelvin, "A" \o LongS \o Kelvin,
+              "CLU" \o LongS \o "TERDOWN", "clu" \o LongS \o "terdown"}
+CaseWords == {"MoVeD", "aSk", "ClusterDown"}
+PrefixWords == {"ASKING", "MOVEDX", "CLUSTERDOWNX", "ASK" \o LongS, "MOVED:"}
+NearShapes(w) == {w \o " 866 {ADDR}", w \o " 866 {ADDR} extra", w \o " 866"}
+NearRedirects == UNION {NearShapes(w) : w \in FoldWords \cup CaseWords \cup PrefixWords}
+\* the well-formed looking ones (three words) with a first word that matches only under Unicode folding
+FoldRedirects == {w \o " 866 {ADDR}" : w \in FoldWords}
+
 (* ---- CLUSTER NODES payloads *)
 Id1 == "1111111111111111111111111111111111111111"
 Id2 == "2222222222222222222222222222222222222222"
@@ -133,6 +151,11 @@ BackendVecs ==
   \cup {Vec("backend", "keyed", "big", b) : b \in Big}
   \cup {Vec("backend", "keyed", "big", r) : r \in BackendRuns}
   \cup {Vec("backend", "keyed", "error", r) : r \in Redirects}
+  \cup {Vec("backend", "keyed", "error", r) : r \in NearRedirects}
+  \cup {Vec("backend", "keyed-child", "error", r) : r \in FoldRedirects \cup {"MOVED 1", "ASK 866 127.0.0.1:1", "aSk 866 {ADDR}"}}
+  \cup {Vec("backend", "cluster-nodes", "error", r) : r \in FoldRedirects \cup {"MOVED 1 {ADDR}", "aSk 866 {ADDR}", "CLUSTERDOWN down"}}
+  \cup {Vec("backend", "scan", "error", r) : r \in {"A" \o LongS \o "K 866 {ADDR}", "AS" \o Kelvin \o " 866 {ADDR}"}}
+  \cup {Vec("backend", "readonly", "error", "A" \o LongS \o "K 866 {ADDR}"), Vec("backend", "asking", "error", "A" \o LongS \o "K 866 {ADDR}")}
   \cup {Vec("backend", "cluster-nodes", "bulk", c) : c \in ClusterNodes}
   \cup {Vec("backend", "cluster-nodes", "bytes", g) : g \in Generic}
   \cup {Vec("backend", "keyed-cps", "cps", c) : c \in CpsReplies}
@@ -150,9 +173,12 @@ Next == /\ i <= Len(VecSeq) /\ PrintT("@@VEC " \o ToJson(VecSeq[i])) /\ i' = i +
 Spec == Init /\ [][Next]_i
 
 \* every parsing context of the proxy is covered by at least one vector of every form it can meet
-Contexts == {"raw", "keyed", "keyed-cps", "cluster-nodes", "scan", "readonly", "asking"}
+Contexts == {"raw", "keyed", "keyed-child", "keyed-cps", "cluster-nodes", "scan", "readonly", "asking"}
 AllContextsCovered == \A c \in Contexts : \E v \in AllVecs : v.ctx = c
 \* every class of run unit of DecodeStack.tla is sent by a client and by a backend with a count beyond every declared limit
+\* every context in which the proxy interprets an error reply meets a first word that is a verb only under Unicode folding
+FoldCovered == \A c \in {"keyed", "keyed-child", "cluster-nodes", "scan", "readonly", "asking"} :
+                 \E v \in AllVecs : v.ctx = c /\ v.form = "error" /\ v.payload = "A" \o LongS \o "K 866 {ADDR}"
 RunsCovered == /\ \A cl \in {"blank", "empty", "cmd"} : \E r \in ClientRuns : r.class = cl /\ r.n >= 100000
                /\ \E r \in BackendRuns : r.class = "blank" /\ r.n >= 1000000
 =============================================================================
